@@ -60,6 +60,15 @@ impl Value {
         }
     }
 
+    /// Returns the value as it will be read back from the database: the file
+    /// format has a single representation for null and for the empty string.
+    pub(crate) fn into_stored(self) -> Value {
+        match self {
+            Value::Str(ref string) if string.is_empty() => Value::Null,
+            value => value,
+        }
+    }
+
     /// Coerces the `Value` to a boolean.  Returns false for null, zero, and
     /// empty string; returns true for all other values.
     pub(crate) fn to_bool(&self) -> bool {
@@ -165,6 +174,9 @@ impl ValueRef {
         match value {
             Value::Null => ValueRef::Null,
             Value::Int(number) => ValueRef::Int(number),
+            // The file format cannot represent a live pool entry of length
+            // zero, and uses the null reference for the empty string.
+            Value::Str(string) if string.is_empty() => ValueRef::Null,
             Value::Str(string) => ValueRef::Str(string_pool.incref(string)),
         }
     }
